@@ -9,47 +9,60 @@ MANIFEST_TEXT = ("Lean 4 theorems (all index lists incl. repeated indices, all p
                  "items, never split an index, are non-empty and never exceed B; the receiver partitions the stream exactly as "
                  "the sender packed it, so the k-th receive index gets exactly the k-th send index's items with the right "
                  "count; the size exchange round-trips; #messages sent = #receives posted (no hang; false for the unrepaired "
-                 "code, witness proved); and for the free interleaving of the per-neighbour small-step machines every "
+                 "code, witness proved); for the free interleaving of the per-neighbour small-step machines every "
                  "schedule is finite, every maximal one ends in the final state and all of them produce the same scatter "
-                 "calls. The model is run against the real class under mpirun -np 1..4 (thorough: ..8) on random symmetric "
-                 "interface maps with a recording data handle, PMPI-permuted MPI_Testsome completion orders, a per-case "
-                 "alarm that turns a hang into a reported crash, and an independent delivery oracle.")
+                 "calls; and for the rank-level systems (all ranks with program position and the loop counters "
+                 "size_to_send/size_to_recv/no_to_send/no_to_recv resp. the three counters and the final MPI_Waitall of the "
+                 "fixed-size path, ranks moving at their own pace, size and data messages on one FIFO) every schedule is finite, "
+                 "the counters always equal the number of open requests, no message is matched with a receive of the other "
+                 "phase, and every maximal execution ends with every rank returned and every link delivered. The model is run "
+                 "against the real class under mpirun -np 1..4 (thorough: ..8) on random symmetric interface maps with a "
+                 "recording data handle, five item types (MPITraits of long, POD, std::pair, nested pair, FieldVector), all six "
+                 "ways to construct the object, several calls per object mixing fixed- and variable-size handles, "
+                 "PMPI-permuted MPI_Testsome completion orders, a per-case alarm that turns a hang into a reported crash, an "
+                 "independent delivery oracle and a send/receive balance oracle (PMPI counts of the started point-to-point "
+                 "operations).")
 MANIFEST_NOTE = ("Trusted: Lean kernel, the hand-written model's fidelity (differential runs only: scatter calls per source "
                  "rank, in order, with counts and items), OpenMPI (reliable, pairwise FIFO, synchronous-send semantics), "
-                 "harness/mpi_c06.cc + pmpi_sched.cc, g++/ASan/UBSan. The schedule theorems cover one phase (size exchange / "
-                 "data exchange) of all neighbour relations of all ranks; the rank-level sequencing 'size phase before data "
-                 "phase', the delayed first receive of fixed-size communications and the fairness of the MPI_Testsome "
-                 "busy-wait are argued, not proved. Fixed-size handles must report one size >= 1 (the code asserts it). "
-                 "scatter(index, 0) calls for zero-size indices are not part of the compared behaviour. Needs "
-                 "fixes/C06_zero_sizes_hang.patch: the unrepaired code hangs when all sizes towards a neighbour are 0.")
-TECHNIQUE = "Lean 4 proof over a tracker/buffer/round model + MPI differential correspondence with schedule steering, hang alarm and delivery oracle"
+                 "harness/mpi_c06.cc + pmpi_sched.cc, g++/ASan/UBSan. In the rank-level systems every rank is taken to have "
+                 "entered the call and run its first setupRequests (a rank entering later is a pure delay); consecutive calls "
+                 "on one communicator are independent because a finished call leaves nothing in flight (proved) - the "
+                 "composition itself is argued; fairness of the MPI_Testsome busy-wait is assumed. Fixed-size handles must "
+                 "report one size >= 1 (the code asserts it). scatter(index, 0) calls for zero-size indices are not part of "
+                 "the compared behaviour; a message longer than the configured buffer is only counted. Not observable: "
+                 "completion of the scalar size sends before return (the final MPI_Waitall) - removing it changes nothing "
+                 "the harness can see. Needs fixes/C06_zero_sizes_hang.patch (applied as ebd31a1): the unrepaired code hangs "
+                 "when all sizes towards a neighbour are 0.")
+TECHNIQUE = "Lean 4 proof over a tracker/buffer/round model and rank-level transition systems + MPI differential correspondence with schedule steering, hang alarm, delivery and balance oracles"
 TRANSLATORS = []
 HARNESS = dict(
     sources=["mpi_c06.cc", "pmpi_sched.cc"],
     mpi=True,
     repo_sources=["dune/common/exceptions.cc", "dune/common/stdstreams.cc"],
+    flags=["-O0"],  # five item types x the whole communicator template: 12 s instead of 52 s; the sanitizers stay on
 )
 CRASH_IS_VIOLATION = True  # the property promises that forward()/backward() return on every process
 RULE = ("cases: rank 0 draws a symmetric interface map over P processes (self interfaces, empty interfaces, one-directional "
-        "links, repeated indices), a buffer size B in {1,2,3,4,5,7,8,16,32768}, fixed-size handles with f in {1,2,(B+1)/2,B-1,B} "
-        "or variable-size handles with per-index sizes from {0,1,2,B-1,B} (streams: random, all zero, some ranks all zero, "
-        "single non-zero, all B, zero-heavy), item type long or a POD struct, direction sequences f,b,fb,bf,ff,bb on one "
-        "communicator; distinct = distinct op lines; non-trivial = at least one rank has a non-empty interface list")
+        "links, repeated indices), a buffer size B in {1,2,3,4,5,7,8,16,32768}, per-rank fixed sizes f in {1,2,(B+1)/2,B-1,B,random} "
+        "(equal or different between ranks) and/or per-index sizes from {0,1,2,B-1,B,random<=B} (streams: random, all zero, "
+        "some ranks all zero, single non-zero, all B, zero-heavy), one of five item types, one of six constructors, and a "
+        "sequence of 1-4 forward/backward calls on the one object, with handles of the case's mode or of the other mode; "
+        "distinct = distinct op lines; non-trivial = at least one rank has a non-empty interface list")
 ASSUMPTIONS = [
     "the Lean model lean/DuneVerif/Model/C06.lean is hand-written; its fidelity to variablesizecommunicator.hh rests on this differential run (scatter calls per source rank, in order, with counts and items)",
     "MPI is trusted: reliable, pairwise FIFO per (source, tag, communicator); MPI_Issend completes once the matching receive has started; MPI_Testsome eventually reports a completed request",
-    "all processes construct the communicator with the same buffer size and symmetric interface maps whose k-th send and k-th receive entries match (the documented precondition)",
-    "a data handle writes exactly size(i) items in gather(i); a fixed-size handle has one size >= 1 for all indices",
-    "completion orders are sampled (PMPI steering of MPI_Testsome), the theorem all_schedules_terminate covers all of them at the protocol level",
+    "all processes construct the communicator with the same buffer size and symmetric interface maps whose k-th send and k-th receive entries match (the documented precondition), and call forward/backward collectively with handles that agree on fixedSize()",
+    "a data handle writes exactly size(i) items in gather(i); a fixed-size handle has one size >= 1 for all indices (it may differ between ranks)",
+    "completion orders are sampled (PMPI steering of MPI_Testsome); the theorems all_schedules_terminate and rank_level_* cover all of them at the protocol level",
 ]
-TRUSTED = ["OpenMPI, mpicxx/libstdc++, ASan/UBSan", "harness/mpi_c06.cc (generator, recording handle, oracle) + harness/pmpi_sched.cc",
+TRUSTED = ["OpenMPI, mpicxx/libstdc++, ASan/UBSan", "harness/mpi_c06.cc (generator, recording handle, oracles, PMPI counters) + harness/pmpi_sched.cc",
            "Driver/C06.lean parsing/printing"]
 
 
 def batches(tier, seed):
     res = []
     if tier == "quick":
-        plan = [(1, 120), (2, 160), (3, 160), (4, 140)]
+        plan = [(1, 200), (2, 350), (3, 350), (4, 300)]
         reps = 1
     else:
         plan = [(1, 600), (2, 900), (3, 900), (4, 800), (5, 500), (6, 400), (7, 250), (8, 250)]
